@@ -28,6 +28,8 @@ for d in sorted(os.listdir(R)):
 with open(f'{R}/README.md','w') as f:
     f.write("# Independently written property-breaking changes\n\nEach directory holds `patch.diff` (applies to /repo HEAD), the demonstration (`demo_test.go.txt`: fails with the patch, passes without; placement and command in `meta.json`), the author's `notes.md` and `meta.json`. All were written by sub-agents that saw only the property text and a scratch worktree, and were confirmed by `tools/seedval.sh` (compiles, existing suite passes, demo discriminates). `tools/selftest.sh` re-applies each one to /repo, runs the quick check of the property it breaks and restores the tree; results below are from that script.\n\n| id | breaks | change | reported by |\n|---|---|---|---|\n")
     for r in rows: f.write(f"| {r[0]} | {r[1]} | {r[2]} | {r[3]} |\n")
-    n=sum(1 for r in rows if not r[3].startswith('NOT'))
-    f.write(f"\n{n} of {len(rows)} changes are reported by the check of the property they break.\n")
+    own=sum(1 for r in rows if (r[1]+' [') in r[3].split(', ')[0] and not r[3].startswith('NOT'))
+    other=sum(1 for r in rows if not r[3].startswith('NOT'))-own
+    none=sum(1 for r in rows if r[3].startswith('NOT'))
+    f.write(f"\n{own} of {len(rows)} changes are reported by the quick check of the property they break, {other} more only by the check of another property, {none} by none (reasons above).\n")
 print(len(rows),'seeds')
